@@ -46,7 +46,9 @@ const (
 	bzMalformedInner
 	bzAADOtherRequestKey
 	bzWrongTypeField
+	bzInteriorZero
 	bzHostileMax
+	bzReplayedCiphertext = 50 // hostile; generated from a served request, not drawn by the generator
 	// benign classes: must not be confused with hostile ones
 	bzHonestEquivalent  = 100
 	bzExtraPaddingBlock = 101
@@ -57,6 +59,7 @@ var bzName = map[int]string{bzUnregistered: "unregistered-origin", bzOneByteChan
 	bzPrefix: "origin-prefix", bzEmptyUnregistered: "origin-empty-unregistered", bzReencrypt: "reencrypt-to-other-name-key", bzResignOtherKey: "resign-other-key",
 	bzReplacedRequestKey: "replaced-request-key-resigned", bzSigAbsent: "signature-absent", bzSigHalf: "signature-half", bzSigDoubled: "signature-doubled",
 	bzSignOtherContents: "signature-over-other-contents", bzMalformedInner: "malformed-inner-request", bzAADOtherRequestKey: "aad-bound-to-other-request-key", bzWrongTypeField: "wrong-type-field",
+	bzInteriorZero: "origin-registered-plus-zero-byte-and-suffix", bzReplayedCiphertext: "served-ciphertext-replayed-under-another-request-key",
 	bzHonestEquivalent: "byz-honest-equivalent", bzExtraPaddingBlock: "extra-zero-padding-block", bzMalleatedSig: "malleated-signature-r-N-s"}
 
 func (c c07) Generate(seed uint64, tier string, idx int) *core.Plan {
@@ -145,6 +148,8 @@ func byzBuild(w *world.World, cls int, origin string, seed int64) ([]byte, error
 		q.PaddedOrigin = ref.PadOrigin(origin + "\x01")
 	case bzTrailingSpace:
 		q.PaddedOrigin = ref.PadOrigin(origin + " ")
+	case bzInteriorZero:
+		q.PaddedOrigin = ref.PadOrigin(origin + "\x00.attacker.test")
 	case bzPrefix:
 		if len(origin) < 2 {
 			q.PaddedOrigin = ref.PadOrigin(origin + "z")
@@ -205,6 +210,7 @@ func (c c07) Execute(p *core.Plan) *core.Result {
 		return res
 	}
 	byzClass := map[int]int{}
+	replayed := map[int]bool{}
 	w.Observers = append(w.Observers, func(o *world.Outcome) {
 		if o.Op != "evaluate" || o.S.Type != 3 {
 			return
@@ -218,7 +224,7 @@ func (c c07) Execute(p *core.Plan) *core.Result {
 		hostile := false
 		if cls, ok := byzClass[s.ID]; ok {
 			label = bzName[cls]
-			hostile = cls < bzHostileMax
+			hostile = cls < bzHonestEquivalent
 		}
 		changed := o.Msg.Orig != nil && !bytes.Equal(o.Msg.Orig, o.Msg.Payload)
 		for _, l := range o.Msg.Faults {
@@ -243,6 +249,30 @@ func (c c07) Execute(p *core.Plan) *core.Result {
 		if o.Panic != nil {
 			res.Probe("issuer panicked on a hostile request (C03's business)")
 			return
+		}
+		if o.OK && label == "honest" && !replayed[s.ID] && !s.Stop {
+			// REPLAY: the ciphertext of a request that was just served comes back under another
+			// request key, correctly signed by that key (the inner request stays bound to the
+			// original request key through the HPKE associated data)
+			replayed[s.ID] = true
+			if rq, err := ref.ParseRLRequest(o.In); err == nil {
+				sid := 2000 + s.ID
+				ns := &world.Session{ID: sid, Type: 3, Iss: idx, Stop: true, Hostile: true}
+				w.AddSession(ns)
+				byzClass[sid] = bzReplayedCiphertext
+				sec := core.NewRand(uint64(s.ID)*7919 + 3).Bytes(48)
+				sec[0] &= 0x7f
+				wire := []byte{0, 3}
+				wire = append(wire, compressedBase(sec)...)
+				wire = append(wire, rq.NameKeyID...)
+				wire = append(wire, byte(len(rq.Enc)>>8), byte(len(rq.Enc)))
+				wire = append(wire, rq.Enc...)
+				w.Ent.Begin("byzclient", fmt.Sprintf("s%d/replay", sid))
+				if sig, err := ref.SignP384Raw(sec, wire, entropy.Reader()); err == nil {
+					res.FaultFired("byz:"+bzName[bzReplayedCiphertext], true)
+					w.Net.Send(&simnet.Msg{Sess: sid, Kind: world.KIssReq, From: "byzclient", To: o.Msg.To, Payload: append(wire, sig...), Faults: []string{"byz:" + bzName[bzReplayedCiphertext]}}, 1_000_000)
+				}
+			}
 		}
 		if o.OK {
 			if !indep {
